@@ -317,6 +317,11 @@ class HeaderPacketReceiver(Elaboratable):
         last_enable = Signal()
         m.d.ss     += last_enable.eq(self.enable)
 
+        # Whenever we're disabled or in reset, we hold our link-command state in its pre-advertisement
+        # condition; no matter what we were doing when the link went down.
+        restart = Signal()
+        m.d.comb += restart.eq(~self.enable | self.usb_reset)
+
         #
         # Header Packet Buffers
         #
@@ -371,7 +376,7 @@ class HeaderPacketReceiver(Elaboratable):
 
 
         # If we receive a valid packet, it's time for us to buffer it!
-        with m.If(rx.new_packet & ~ignore_packets):
+        with m.If(rx.new_packet & ~ignore_packets & ~restart):
             m.d.ss += [
                 # Load our header packet into the next write buffer...
                 buffers[write_pointer]    .eq(rx.packet),
@@ -445,7 +450,7 @@ class HeaderPacketReceiver(Elaboratable):
         #
         # Link command generation.
         #
-        m.submodules.lc_generator = lc_generator = LinkCommandGenerator()
+        m.submodules.lc_generator = lc_generator = ResetInserter({"ss": restart})(LinkCommandGenerator())
         m.d.comb += [
             self.source             .stream_eq(lc_generator.source),
             self.link_command_sent  .eq(lc_generator.done),
@@ -458,7 +463,7 @@ class HeaderPacketReceiver(Elaboratable):
             # and then move to the state in which we'll send them.
             with m.State("DISPATCH_COMMAND"):
 
-                with m.If(self.enable):
+                with m.If(~restart):
                     # NOTE: the order below is important; changing it can easily break things:
                     # - ACKS must come before credits, as we must send an LGOOD before we send our initial credits.
                     # - LBAD must come after ACKs and credit management, as all scheduled ACKs need to be
@@ -489,43 +494,6 @@ class HeaderPacketReceiver(Elaboratable):
 
 
 
-                # Once we've become disabled, we'll want to prepare for our next enable.
-                # This means preparing for our advertisement, by:
-                with m.If((last_enable & ~self.enable) | self.usb_reset):
-                    m.d.ss += [
-                        # -Resetting our pending ACKs to 1, so we perform an sequence number advertisement
-                        #  when we're next enabled.
-                        acks_to_send          .eq(1),
-
-                        # -Decreasing our next sequence number; so we maintain a continuity of sequence numbers
-                        #  without counting the advertising one. This doesn't seem to be be strictly necessary
-                        #  per the spec; but seem to make analyzers happier, so we'll go with it.
-                        next_header_to_ack    .eq(next_header_to_ack - 1),
-
-                        # - Clearing all of our buffers.
-                        read_pointer          .eq(0),
-                        write_pointer         .eq(0),
-                        buffers_filled        .eq(0),
-
-                        # - Preparing to re-issue all of our buffer credits.
-                        next_credit_to_issue  .eq(0),
-                        credits_to_issue      .eq(self._buffer_count),
-
-                        # - Clear our pending events.
-                        lrty_pending          .eq(0),
-                        lbad_pending          .eq(0),
-                        keepalive_pending     .eq(0),
-                        ignore_packets        .eq(0)
-                    ]
-
-                    # If this is a USB Reset, also reset our sequences.
-                    with m.If(self.usb_reset):
-                        m.d.ss += [
-                            expected_sequence_number  .eq(0),
-                            next_header_to_ack        .eq(-1)
-                        ]
-
-
             # SEND_ACKS -- a valid header packet has been received, or we're advertising
             # our initial sequence number; send an LGOOD packet.
             with m.State("SEND_ACKS"):
@@ -547,6 +515,9 @@ class HeaderPacketReceiver(Elaboratable):
                     # If this was the last ACK we had to send, move back to our dispatch state.
                     with m.If(acks_to_send == 1):
                         m.next = "DISPATCH_COMMAND"
+
+                with m.If(restart):
+                    m.next = "DISPATCH_COMMAND"
 
 
             # ISSUE_CREDITS -- header packet buffers have been freed; and we now need to notify the
@@ -570,6 +541,9 @@ class HeaderPacketReceiver(Elaboratable):
                     with m.If(credits_to_issue == 1):
                         m.next = "DISPATCH_COMMAND"
 
+                with m.If(restart):
+                    m.next = "DISPATCH_COMMAND"
+
 
             # SEND_LBAD -- we've received a bad header packet; we'll need to let the other side know.
             with m.State("SEND_LBAD"):
@@ -584,6 +558,9 @@ class HeaderPacketReceiver(Elaboratable):
                     m.d.ss += lbad_pending.eq(0)
                     m.next = "DISPATCH_COMMAND"
 
+                with m.If(restart):
+                    m.next = "DISPATCH_COMMAND"
+
 
             # SEND_LRTY -- our transmitter has requested that we send an retry indication to the other side.
             # We'll do our transmitter a favor and do so.
@@ -595,6 +572,9 @@ class HeaderPacketReceiver(Elaboratable):
 
                 with m.If(lc_generator.done):
                     m.d.ss += lrty_pending.eq(0)
+                    m.next = "DISPATCH_COMMAND"
+
+                with m.If(restart):
                     m.next = "DISPATCH_COMMAND"
 
 
@@ -617,6 +597,9 @@ class HeaderPacketReceiver(Elaboratable):
                     m.d.ss += keepalive_pending.eq(0)
                     m.next = "DISPATCH_COMMAND"
 
+                with m.If(restart):
+                    m.next = "DISPATCH_COMMAND"
+
 
             # SEND_LXU -- we're being instructed to reject a requested power-state transfer.
             # We'll send an LXU packet to inform the other side of the rejection.
@@ -629,5 +612,45 @@ class HeaderPacketReceiver(Elaboratable):
                 with m.If(lc_generator.done):
                     m.d.ss += lxu_pending.eq(0)
                     m.next = "DISPATCH_COMMAND"
+
+                with m.If(restart):
+                    m.next = "DISPATCH_COMMAND"
+
+        #
+        # Link (re)start handling.
+        #
+
+        # While we're disabled (or in USB reset), we prepare for our next enable. This is evaluated in
+        # every state, so it also covers a link that goes down in the middle of a link command.
+        with m.If(restart):
+            m.d.ss += [
+                # -Resetting our pending ACKs to 1, so we perform an sequence number advertisement
+                #  when we're next enabled; which advertises the last sequence number we've received.
+                acks_to_send          .eq(1),
+                next_header_to_ack    .eq(expected_sequence_number - 1),
+
+                # - Clearing all of our buffers.
+                read_pointer          .eq(0),
+                write_pointer         .eq(0),
+                buffers_filled        .eq(0),
+
+                # - Preparing to re-issue all of our buffer credits.
+                next_credit_to_issue  .eq(0),
+                credits_to_issue      .eq(self._buffer_count),
+
+                # - Clear our pending events.
+                lrty_pending          .eq(0),
+                lbad_pending          .eq(0),
+                keepalive_pending     .eq(0),
+                ignore_packets        .eq(0)
+            ]
+
+            # If this is a USB Reset, also reset our sequences.
+            with m.If(self.usb_reset):
+                m.d.ss += [
+                    expected_sequence_number  .eq(0),
+                    next_header_to_ack        .eq(-1)
+                ]
+
 
         return m
